@@ -154,7 +154,7 @@ func TestC03(t *testing.T) {
 		return
 	}
 
-	perType := vf.N(550, 70000)
+	perType := vf.N(550, 400000)
 	for typ := uint8(1); typ <= 15; typ++ {
 		typ := typ
 		n := perType
